@@ -252,6 +252,13 @@ class SeqProperty:
             assumptions=TRUSTED_BASE,
             wall_s=timer.s(), violations=len(violations),
         )
+        if prop == "C03":
+            import monitors
+            ev["coverage"]["fall_time_hypotheses"] = dict(
+                monitors.HYP, note="pulses checked against A1 (fall <= 2*rise of its modulation; a failure is "
+                "reported as clause fall-hypothesis-A1); A2_false counts pulses with fall(EOM) > fall(standard) "
+                "(EOM slower than the channel): on those histories C03.no_conflict's hypothesis A2 is not met and "
+                "only the direct monitor decides the no-conflict clause")
         write_evidence(prop, ev)
         for kf in findings:
             if kf.get("property") == prop and kf.get("status") == "known":
